@@ -147,11 +147,14 @@ def deep_limits(h: Harness):
         raise InfraError(f"c03 deep worker failed rc={p.returncode}: {p.stderr[-800:]}")
     for key, res in json.loads(line[len("C03DEEP "):]).items():
         gname, dname, limit = key.split("/")
-        site = "DynamicSGE.genotype_to_phenotype" if dname == "dsge" else f"create_genotype[{dname}]"
+        op = None
+        if "+" in dname:
+            dname, op = dname.split("+")
+        site = "DynamicSGE.genotype_to_phenotype" if dname == "dsge" else (f"create_genotype[{dname}]" if op is None else f"TreeBasedRepresentation.{op}[{dname}]")
         h.seen("deep:" + key, nontrivial=True)
         h.count("deep-limits:" + dname)
         if "error" in res:
-            h.fail(site, "feasible-limit-fails", f"{gname} grammar, max depth {limit} (minimum 1), fresh interpreter: creation failed with {res['error']}", [key])
+            h.fail(site, "feasible-limit-fails", f"{gname} grammar, max depth {limit} (minimum 1), fresh interpreter: {op or 'creation'} failed with {res['error']}", [key])
         elif res["depth"] > int(limit):
             h.fail(site, "depth-exceeds-limit", f"[python oracle] {gname} grammar: program of depth {res['depth']} under max depth {limit}", [key])
 
@@ -207,6 +210,14 @@ def corpus():
         out.append(gram.Spec([C("A0", True, None), C("A1", True, 0), C("Lit", False, 1, [("k", ("ann", "int", ("intRange", 0, 2)))], weight=0),
                               C("Neg", False, 1, [("e", ("cls", 0))], weight=3), C("Add", False, 0, [("l", ("cls", 0)), ("r", ("cls", 1))], weight=0.5),
                               C("S", False, None, [("a", ("cls", 0)), ("b", ("cls", 1))])], 5, [2, 3, 4, 5, 1], expansion))
+    # bounded lists that MAY be empty, with concrete / abstract / refined-leaf element types, next to a leaf production: whatever the
+    # analysis charges such a field, a production admitted at the last level gets no elements below the limit
+    for expansion in (False, True):
+        for lo, hi in ((0, 2), (0, 1), (1, 2)):
+            for mh in ("listSize", "listSizeNoOps"):
+                out.append(gram.Spec([C("A0", True, None), C("Leaf", False, 0, []), C("Point", False, None, [("x", ("ann", "int", ("intRange", 0, 3)))]),
+                                      C("Cloud", False, 0, [("samples", ("ann", ("list", ("cls", 2)), (mh, lo, hi)))]),
+                                      C("Tree", False, 0, [("kids", ("ann", ("list", ("cls", 0)), (mh, lo, hi))), ("p", ("cls", 2))])], 0, [1, 3, 4, 2], expansion))
     return out
 
 
